@@ -255,7 +255,7 @@ def run(tier, seed, replay=None):
            "model_states": ut_states, "model_scenarios_replayed": n_ut,
            "traces_replayed_into_impl": n_ut, "replay_equal_to_model": ut_agree,
            "model_drift_examples": ut_drift[:5]}
-    return v.finish("exploration", cov, [
+    return v.finish("model_checking", cov, [
         "rustc_parse + pprust give the use trees, visibilities and attributes of input and output",
         "runs are maximal sequences of consecutive use items (blank lines do not split runs)",
         "attached comments are not part of the denotation in this version"])
